@@ -29,8 +29,9 @@ var (
 	clusterNames = []string{"a", "b", "c"}
 	aliasPool    = []string{"x", "Y", "z.Example"}
 	holds        = []string{"prepick", "preconnect", "headers", "stream"}
-	kinds        = []string{"delete-cluster", "drop-endpoint", "replace-endpoints", "drop-alias", "disable-endpoint", "recreate-cluster"}
-	points       = []string{"before", "prepick", "preconnect", "headers", "stream"}
+	kinds        = []string{"delete-cluster", "drop-endpoint", "replace-endpoints", "drop-alias", "disable-endpoint", "recreate-cluster",
+		"cycle-drop-endpoint", "cycle-delete-cluster"}
+	points = []string{"before", "prepick", "preconnect", "headers", "stream"}
 )
 
 func randCase(r *rand.Rand, s string) string {
@@ -188,7 +189,7 @@ func template(r *rand.Rand, kind, point string) Case {
 	B := otherName(r, A)
 	var sa []Srv
 	switch kind {
-	case "drop-endpoint", "disable-endpoint":
+	case "drop-endpoint", "disable-endpoint", "cycle-drop-endpoint", "cycle-delete-cluster":
 		sa = []Srv{{Up: r.Intn(nStubs)}}
 		if r.Intn(2) == 0 {
 			sa = append(sa, Srv{Up: (sa[0].Up + 1 + r.Intn(2)) % nStubs})
@@ -206,6 +207,34 @@ func template(r *rand.Rand, kind, point string) Case {
 		aa = nil
 	}
 	g.apply(A, aa, sa)
+	// disable -> re-enable cycles before anything is removed: the health-check loop of that endpoint is stopped and
+	// restarted through the update path of addOrUpdateEndpoint (once, twice, or three times)
+	cycles := 0
+	if strings.HasPrefix(kind, "cycle-") {
+		cycles = 1 + r.Intn(3)
+	} else if r.Intn(4) == 0 && len(sa) > 0 && kind != "replace-endpoints" {
+		cycles = 1 + r.Intn(2)
+	}
+	cyc := 0
+	if cycles > 0 && !strings.HasPrefix(kind, "cycle-") {
+		cyc = r.Intn(len(sa))
+	}
+	cycle := func() {
+		off := append([]Srv{}, sa...)
+		off[cyc].Disabled = true
+		g.apply(A, aa, off)
+		if r.Intn(3) == 0 {
+			g.start(g.hostOf(A), "stream") // lands on another endpoint, or gets 503
+		}
+		g.apply(A, aa, sa)
+	}
+	early := 0
+	if cycles > 0 {
+		early = 1 + r.Intn(cycles) // the rest of the cycles happens while the bystanders / victims are in flight
+	}
+	for i := 0; i < early; i++ {
+		cycle()
+	}
 	withB := r.Intn(4) != 0
 	if withB {
 		g.apply(B, g.aliases(B, false), g.servers(1))
@@ -234,6 +263,9 @@ func template(r *rand.Rand, kind, point string) Case {
 			victims = append(victims, g.start(g.hostOf(A), point))
 		}
 	}
+	for i := early; i < cycles; i++ {
+		cycle()
+	}
 	hostBefore := g.hostOf(A)
 	if r.Intn(3) == 0 {
 		g.storm(g.hostOf(A)) // an unscripted race with the removal
@@ -243,12 +275,12 @@ func template(r *rand.Rand, kind, point string) Case {
 	}
 	// the removal
 	switch kind {
-	case "delete-cluster":
+	case "delete-cluster", "cycle-delete-cluster":
 		g.del(A)
 	case "recreate-cluster":
 		g.del(A)
 		g.apply(A, g.aliases(A, false), g.servers(1))
-	case "drop-endpoint":
+	case "drop-endpoint", "cycle-drop-endpoint":
 		if len(sa) > 1 {
 			g.apply(A, aa, sa[1:])
 		} else {
@@ -285,7 +317,7 @@ func template(r *rand.Rand, kind, point string) Case {
 	if g.cl[A] != nil && r.Intn(2) == 0 {
 		g.start(g.hostOf(A), holds[r.Intn(len(holds))])
 	}
-	if kind == "drop-endpoint" && r.Intn(3) == 0 {
+	if (kind == "drop-endpoint" || kind == "cycle-drop-endpoint") && r.Intn(3) == 0 {
 		g.apply(A, aa, sa) // the dropped endpoint comes back: a new EndpointInfo, the old one stays dead
 		g.start(g.hostOf(A), "stream")
 	}
@@ -359,6 +391,11 @@ func randomCase(r *rand.Rand) Case {
 					if len(srv) > 0 {
 						j := r.Intn(len(srv))
 						srv[j].Disabled = !srv[j].Disabled
+						if r.Intn(2) == 0 { // and straight back: a disable -> re-enable (or enable -> disable) cycle
+							g.apply(name, al, srv)
+							srv = append([]Srv{}, srv...)
+							srv[j].Disabled = !srv[j].Disabled
+						}
 					}
 				case 3:
 					if len(al) > 0 {
